@@ -57,7 +57,11 @@ def doc_case(draw):
 
 def build_doc(d) -> dict:
     paths = {o["path"]: {o["method"]: o["op"]} for o in d["ops"]}
-    paths["/x"] = {"get": {"parameters": [{"name": "x", "in": "query", "required": True, "schema": {"type": "integer", "minimum": 0, "maximum": 200}}], "responses": {"200": {"description": "ok"}}}}
+    paths["/x"] = {"get": {"parameters": [{"name": "x", "in": "query", "required": True, "schema": {"type": "integer", "minimum": 0, "maximum": 200}}] + [{"name": f"ov_{c}", "in": "query", "schema": {"type": "string"}} for c in "abcde"], "responses": {"200": {"description": "ok"}}}}
+    if d.get("secured"):
+        for item in paths.values():
+            for op in item.values():
+                op["security"] = [{"tok": []}]
     if d.get("twin"):
         body = {"required": True, "content": {"application/json": {"schema": {"type": "object", "properties": {"n": {"type": "integer", "minimum": 0, "maximum": 3}}, "required": ["n"], "additionalProperties": False}}}}
         paths["/tw"] = {"post": {"requestBody": body, "responses": {"200": {"description": "ok"}}}, "put": {"requestBody": body, "responses": {"200": {"description": "ok"}}}}
@@ -70,7 +74,10 @@ def build_doc(d) -> dict:
         paths["/c"] = {"post": {"operationId": "c", "requestBody": {"required": True, "content": {"application/json": {"schema": {"type": "object", "properties": {"n": {"type": "integer"}}, "required": ["n"]}}}},
                                 "responses": {"201": {"description": "ok", "links": {"l": {"operationId": "g", "parameters": {"id": "$response.body#/id"}}}}}}}
         paths["/c/{id}"] = {"get": {"operationId": "g", "parameters": [{"name": "id", "in": "path", "required": True, "schema": {"type": "integer"}}, {"name": "w", "in": "query", "schema": {"type": "string", "pattern": "^[a-z]{2,4}$"}}], "responses": {"200": {"description": "ok"}}}}
-    return {"openapi": "3.0.2", "info": {"title": "t", "version": "1"}, "paths": paths}
+    doc = {"openapi": "3.0.2", "info": {"title": "t", "version": "1"}, "paths": paths}
+    if d.get("secured"):
+        doc["components"] = {"securitySchemes": {"tok": {"type": "http", "scheme": "bearer"}}}
+    return doc
 
 
 def make_script(d):
@@ -81,6 +88,8 @@ def make_script(d):
     slow: dict = {}
 
     def script(req, ordinal):
+        if d.get("secured") and req.header("Authorization") != "Bearer good":
+            return loopback.json_reply(401, {"e": "unauthorized"})
         if req.path == "/c":
             return loopback.json_reply(201, {"id": 7})
         if req.path == "/tw" and req.method == "POST" and d.get("tw_fail") and b'"n": 3' in req.body.replace(b'"n":3', b'"n": 3'):
@@ -123,6 +132,10 @@ def pair_case(draw):
         "unexpected_methods": draw(st.sampled_from([None, None, ["get", "post", "put"], ["delete", "patch", "post"]])),
         # workers clause: a directory database (the CLI default) that is fresh for each run, and a reproducible failure of POST /tw
         "db_and_twin_failure": draw(st.booleans()),
+        # cli clause: several --set-query overrides of one operation; workers clause: configured credentials on a secured API
+        # together with the ignored_auth check (whose probes strip them on purpose)
+        "overrides": draw(st.booleans()),
+        "secured_auth": draw(st.integers(0, 2)) == 0,
     }
 
 
@@ -184,12 +197,15 @@ def check_workers(ctx: Ctx, inp) -> None:
 
     engine_run.preload()
     phases = [p for p in inp["phases"] if p != "stateful"] or ["fuzzing"]
-    doc = build_doc(dict(inp["doc"], fail_over=None))
+    secured = bool(inp.get("secured_auth"))
+    doc = build_doc(dict(inp["doc"], fail_over=None, secured=secured))
     results = []
     with_db = bool(inp.get("db_and_twin_failure")) and inp["doc"].get("twin")
     for workers in (1, inp["workers"]):
-        server = loopback.shared(make_script(dict(inp["doc"], fail_over=None, tw_fail=with_db)))
+        server = loopback.shared(make_script(dict(inp["doc"], fail_over=None, tw_fail=with_db, secured=secured)))
         cfg = dict(_cfg(inp, workers), phases=phases)
+        if secured:
+            cfg.update(network={"headers": {"Authorization": "Bearer good"}}, checks=["not_a_server_error", "ignored_auth"])
         dbdir = tempfile.mkdtemp(prefix="vfw-c13-db-", dir="/var/tmp") if with_db else None
         if dbdir:
             cfg["database_dir"] = dbdir
@@ -204,7 +220,7 @@ def check_workers(ctx: Ctx, inp) -> None:
         results.append(({k: sorted(v) for k, v in per_op.items()}, record.exception))
     (one, e1), (many, e2) = results
     n = sum(len(v) for v in one.values())
-    ctx.case(nontrivial=inp if _nontrivial(inp, n) else None, classes=[f"workers={inp['workers']}", f"phases={'+'.join(phases)}", "database+failing-twin" if with_db else "no-database"], sample={"input": inp, "requests": n})
+    ctx.case(nontrivial=inp if _nontrivial(inp, n) else None, classes=[f"workers={inp['workers']}", f"phases={'+'.join(phases)}", "database+failing-twin" if with_db else "no-database", "secured+ignored_auth" if secured else "open"], sample={"input": inp, "requests": n})
     if e1 or e2:
         ctx.disagree("workers:engine-exception", f"{e1 or e2}", input=inp)
         return
@@ -227,6 +243,9 @@ def check_cli(ctx: Ctx, inp) -> None:
             server = loopback.shared(make_script(inp["doc"]))
             env = dict(os.environ, PYTHONHASHSEED=hashseed)
             args = [sys.executable, "-m", "schemathesis.cli", "run", schema_path, "--url", server.url, "--seed", str(inp["seed"]), "--max-examples", str(inp["max_examples"]), "--phases", ",".join(inp["phases"]), "--mode", "all" if len(inp["modes"]) == 2 else inp["modes"][0], "--no-color", "--workers", "1", "--checks", "not_a_server_error"]
+            if inp.get("overrides"):
+                for c, v in zip("abcde", "12345"):
+                    args += ["--set-query", f"ov_{c}={v}"]
             done = subprocess.run(args, cwd=workdir, env=env, capture_output=True, timeout=180)
             runs_.append((normalise(server.snapshot(), server.server.server_port), done.returncode, done.stdout.decode("utf-8", "replace")[-400:]))
         (a, ca, oa), (b, cb, ob) = runs_
